@@ -13,8 +13,8 @@ type StrOrBytes interface{ ~string | ~[]byte }
 
 var zeros = []byte{'0', '0', '0', '0'}
 
-// Fill writes its parameter in place (panics when n > len(dst)) and has a result.
-func Fill(dst []byte, v byte, n int) int {
+// Fill7 writes its parameter in place (panics when n > len(dst)) and has a result.
+func Fill7(dst []byte, v byte, n int) int {
 	k := 0
 	for i := 0; i < n; i++ {
 		dst[i] = v
@@ -66,8 +66,8 @@ func Scratch(dst []byte, v uint64) (int, byte) {
 
 // Two: a whole variable and a tail of it as written arguments.
 func Two(dst []byte, n int) int {
-	a := Fill(dst, 1, n)
-	c := Fill(dst[1:], 2, n-1)
+	a := Fill7(dst, 1, n)
+	c := Fill7(dst[1:], 2, n-1)
 	return a*10 + c
 }
 
